@@ -30,6 +30,7 @@ func (c Config) parseTokens(tokens []Token) (ASTNode, Error) { //nolint: gocyclo
 		bn        *ASTBlock        // current block node
 		stack     []frame          // stack of blocks
 		rawTag    *ASTRaw          // current raw tag
+		modeTok   Token            // the comment or raw tag that is open
 		inComment = false
 		inRaw     = false
 	)
@@ -63,9 +64,9 @@ func (c Config) parseTokens(tokens []Token) (ASTNode, Error) { //nolint: gocyclo
 			if cs, ok := g.BlockSyntax(tok.Name); ok {
 				switch {
 				case tok.Name == "comment":
-					inComment = true
+					inComment, modeTok = true, tok
 				case tok.Name == "raw":
-					inRaw = true
+					inRaw, modeTok = true, tok
 					rawTag = &ASTRaw{}
 					*ap = append(*ap, rawTag)
 				case cs.RequiresParent() && (sd == nil || !cs.CanHaveParent(sd)):
@@ -104,6 +105,9 @@ func (c Config) parseTokens(tokens []Token) (ASTNode, Error) { //nolint: gocyclo
 		case tok.Type == TrimRightTokenType:
 			*ap = append(*ap, &ASTTrim{TrimDirection: Right})
 		}
+	}
+	if inComment || inRaw {
+		return nil, Errorf(modeTok, "unterminated %q block", modeTok.Name)
 	}
 	if bn != nil {
 		return nil, Errorf(bn, "unterminated %q block", bn.Name)
